@@ -98,8 +98,80 @@ func a16Packs(repo *repository.Repository, be backend.Backend) []a16PackInfo {
 		res = append(res, pi)
 		return nil
 	})
-	sort.Slice(res, func(i, j int) bool { return res[i].ID.String() < res[j].ID.String() })
+	sort.Slice(res, func(i, j int) bool { return a16Before(res[i].ID.String(), res[j].ID.String()) })
 	return res
+}
+
+// a16Seq gives files the harness itself created (through backup etc.) a canonical creation
+// sequence number. Storage IDs are hashes of ciphertexts with random nonces, i.e. different in
+// every run; ordering lists by ID would make every "pick the n-th pack" choice depend on them.
+// Lists are therefore ordered by creation sequence (files not registered: afterwards, by ID).
+var a16Seq = map[string]int{}
+
+func a16Before(a, b string) bool {
+	sa, oka := a16Seq[a]
+	sb, okb := a16Seq[b]
+	switch {
+	case oka && okb:
+		return sa < sb
+	case oka != okb:
+		return oka
+	default:
+		return a < b
+	}
+}
+
+// a16Note registers every not yet registered pack and index file of the backend; files that
+// appeared together are ordered by content shape (data packs before tree packs, fewer blobs first).
+func a16Note(repo *repository.Repository, be backend.Backend) {
+	var np []a16PackInfo
+	for _, p := range a16Packs(repo, be) {
+		if _, ok := a16Seq[p.ID.String()]; !ok {
+			np = append(np, p)
+		}
+	}
+	kind := func(p a16PackInfo) int {
+		if len(p.Entries) > 0 {
+			return p.Entries[0].Typ
+		}
+		return 2
+	}
+	sort.SliceStable(np, func(i, j int) bool {
+		if kind(np[i]) != kind(np[j]) {
+			return kind(np[i]) < kind(np[j])
+		}
+		if len(np[i].Entries) != len(np[j].Entries) {
+			return len(np[i].Entries) < len(np[j].Entries)
+		}
+		return np[i].Size < np[j].Size
+	})
+	for _, p := range np {
+		a16Seq[p.ID.String()] = len(a16Seq)
+	}
+	var ni []a16IdxInfo
+	for _, ix := range a16Indexes(repo, be) {
+		if _, ok := a16Seq[ix.ID.String()]; !ok {
+			ni = append(ni, ix)
+		}
+	}
+	minSeq := func(ix a16IdxInfo) int {
+		m := 1 << 30
+		for _, p := range ix.Packs {
+			if q, ok := a16Seq[p.Pack.String()]; ok && q < m {
+				m = q
+			}
+		}
+		return m
+	}
+	sort.SliceStable(ni, func(i, j int) bool {
+		if minSeq(ni[i]) != minSeq(ni[j]) {
+			return minSeq(ni[i]) < minSeq(ni[j])
+		}
+		return ni[i].NBlobs < ni[j].NBlobs
+	})
+	for _, ix := range ni {
+		a16Seq[ix.ID.String()] = len(a16Seq)
+	}
 }
 
 // a16IdxInfo describes one index file as stored.
@@ -138,13 +210,13 @@ func a16Indexes(repo *repository.Repository, be backend.Backend) []a16IdxInfo {
 					ii.NBlobs += len(ip.Entries)
 					ii.Packs = append(ii.Packs, ip)
 				}
-				sort.Slice(ii.Packs, func(i, j int) bool { return ii.Packs[i].Pack.String() < ii.Packs[j].Pack.String() })
+				sort.Slice(ii.Packs, func(i, j int) bool { return a16Before(ii.Packs[i].Pack.String(), ii.Packs[j].Pack.String()) })
 			}
 		}
 		res = append(res, ii)
 		return nil
 	})
-	sort.Slice(res, func(i, j int) bool { return res[i].ID.String() < res[j].ID.String() })
+	sort.Slice(res, func(i, j int) bool { return a16Before(res[i].ID.String(), res[j].ID.String()) })
 	return res
 }
 
@@ -315,7 +387,13 @@ func a16Snapshots(repo *repository.Repository) []*data.Snapshot {
 	if err != nil {
 		panic(err)
 	}
-	sort.Slice(res, func(i, j int) bool { return res[i].ID().String() < res[j].ID().String() })
+	// creation (time) order: snapshot IDs differ from run to run
+	sort.Slice(res, func(i, j int) bool {
+		if !res[i].Time.Equal(res[j].Time) {
+			return res[i].Time.Before(res[j].Time)
+		}
+		return res[i].ID().String() < res[j].ID().String()
+	})
 	return res
 }
 
